@@ -1,9 +1,12 @@
 //! Native replay / translator-validation binary: one JSON command per stdin line, one JSON answer per stdout line.
 //! Linked against /repo's working tree; rebuilt by every check.
 use scale_info::{Path, PathError};
+#[allow(unused_imports)]
+use scale_info::TypeInfo;
 use serde_json::{json, Value};
 use std::io::{BufRead, Write};
 
+mod laws;
 mod meta;
 mod ops;
 mod reg;
